@@ -202,6 +202,69 @@ def run_real(kind: str, obf: bool, chunks: list, ending: str, partial: bytes, ra
         vloop.close_loop(loop)
 
 
+class BudgetExceeded(KeyboardInterrupt):
+    """Raised by the CPU-time budget (ITIMER_VIRTUAL): derives from KeyboardInterrupt so that neither the library's
+    `except Exception` clauses nor asyncio's task machinery swallow it."""
+
+
+class cpu_budget:
+    """`with cpu_budget(seconds):` -- the block may use that much CPU time of this process; beyond it BudgetExceeded
+    is raised inside whatever Python code is running (a parser spinning on a lying element count).  CPU time, not
+    wall time: a loaded machine cannot trip it."""
+
+    def __init__(self, seconds: float):
+        self.seconds = seconds
+
+    def __enter__(self):
+        import signal
+
+        def on_alarm(signum, frame):
+            raise BudgetExceeded(f'more than {self.seconds} s of CPU time')
+        self._old = signal.signal(signal.SIGVTALRM, on_alarm)
+        signal.setitimer(signal.ITIMER_VIRTUAL, self.seconds)
+        return self
+
+    def __exit__(self, *exc):
+        import signal
+        signal.setitimer(signal.ITIMER_VIRTUAL, 0)
+        signal.signal(signal.SIGVTALRM, self._old)
+        return False
+
+
+def termination_probes(run: Run, lay: dict) -> bool:
+    """"Whatever bytes a server or peer sends, parsing terminates": for every class with an array (or string) field of
+    every reader table, frames whose element count / string length lies (0xFFFFFFFF, 0x7FFFFFFF, 2^24) with next to
+    nothing behind it are decoded under a CPU budget.  Returns False when a parser did not terminate (the in-process
+    stream scenarios are then skipped: they would hang on the same input)."""
+    ok = True
+    for kind in KINDS:
+        for m in table_msgs(lay, kind):
+            pos = next((i for i, f in enumerate(m['fields']) if isinstance(f['type'], dict) or f['type'] in ('string', 'bytearr')), None)
+            if pos is None or m['compressed']:
+                continue
+            vals = L.gen_message(run.rng, lay, m, 'full')
+            body = L.make_obj(lay, m, vals).serialize()[4:]
+            # bytes of the fields in front of the first counted field: re-encode the message with that field emptied
+            idw = m['id_width']
+            for lie in (0xFFFFFFFF, 1 << 24):
+                # overwrite every aligned-looking uint32 position once: one of them is the count
+                for off in range(idw, min(len(body) - 3, idw + 20)):
+                    frame_body = body[:off] + struct.pack('<I', lie) + body[off + 4:off + 6]
+                    plain = struct.pack('<I', len(frame_body)) + frame_body
+                    try:
+                        with cpu_budget(4.0):
+                            isolated_decode(kind, plain)
+                    except BudgetExceeded:
+                        run.add_finding(Finding(f'parsing-does-not-terminate:{m["name"]}',
+                                                f'{kind} connection: a {len(plain)}-byte {m["name"]} frame whose count/length field says {lie:#x} keeps the parser busy for more than '
+                                                '4 s of CPU time (the loop runs inside the event loop: every connection starves)',
+                                                {'scenario': 'termination', 'kind': kind, 'plain': plain.hex(), 'class': m['name']},
+                                                observed='no result within the CPU budget', expected='a message or a rejection, in time linear in the frame length'))
+                        return False
+                    run.case({'termination': [kind, m['name'], lie, off]}, kind='termination-probe')
+    return ok
+
+
 def isolated_decode(kind: str, plain: bytes):
     """The frame decoded on its own by the connection's deserializer (oracle of `decodable`)."""
     import aioslsk.protocol.messages as M
@@ -821,7 +884,8 @@ def run(run: Run):
                 'distinct = distinct (kind, chunks, ending); non-trivial = at least one undecodable and one decodable frame. '
                 'Cross-family: for every ordered pair of connection kinds a frame whose code belongs to the other family, then valid frames '
                 'with that code on a connection of that family (decoding must not depend on other connections\' history). '
-                'Accept path: 10 first-frame shapes x plain/obfuscated port next to an established connection. Handler hypothesis: '
+                'Termination probes: lying count / length fields (0xFFFFFFFF, 0x7FFFFFFF, 2^24) at every offset of every class with a counted '
+                'field, decoded under a CPU-time budget. Accept path: 10 first-frame shapes x plain/obfuscated port next to an established connection. Handler hypothesis: '
                 'every message class twice through a fully wired client.')
     run.trusted += ['asyncio.StreamReader.readexactly semantics (the real one is used in the correspondence runs)',
                     'zlib (oracle)', 'the hypothesis "no handler raises CancelledError" is established by testing, not proof']
@@ -856,12 +920,21 @@ def run(run: Run):
     todo += [(sc['kind'], sc) for sc in large_scenarios(run.rng, play, 3 if eff_tier == 'quick' else 12)]
     for kind in KINDS:
         todo += [(kind, None) for _ in range(n)]
+    terminates = termination_probes(run, play)
+    if not terminates:
+        todo = []       # the same hostile inputs would spin inside the harness process
     if True:
         for kind, sc in todo:
             if sc is None:
                 sc = gen_scenario(run.rng, play, kind)
             try:
-                obs = run_real(kind, sc['obf'], sc['chunks'], sc['ending'], sc['partial'], sc['raise_every'], cur)
+                with cpu_budget(20.0 if not sc.get('large') else 120.0):
+                    obs = run_real(kind, sc['obf'], sc['chunks'], sc['ending'], sc['partial'], sc['raise_every'], cur)
+                    [isolated_decode(kind, p) for p in sc['plains']]
+            except BudgetExceeded:
+                run.add_finding(Finding(f'parsing-does-not-terminate:stream:{kind}', f'{kind} connection: the reader did not get through a stream of frame kinds {sc["labels"]} '
+                                        'within 20 s of CPU time', scenario_witness(sc), observed='no result within the CPU budget'))
+                break
             except Exception as e:
                 run.add_finding(Finding(f'reader-harness-exception:{kind}', f'{type(e).__name__}: {e}', scenario_witness(sc)))
                 continue
@@ -923,6 +996,16 @@ def replay(rep: dict) -> int:
                 w.stop()
             except Exception:
                 w.close()
+    if wit.get('scenario') == 'termination':
+        plain = bytes.fromhex(wit['plain'])
+        try:
+            with cpu_budget(4.0):
+                r = isolated_decode(wit['kind'], plain)
+        except BudgetExceeded:
+            print(f"{wit['class']} frame {plain.hex()} on a {wit['kind']} connection: the parser is still running after 4 s of CPU time")
+            return 1
+        print('parser returned:', 'rejected' if r is None else r)
+        return 0
     if wit.get('scenario') == 'listeners':
         from vlib.world import World
         r = common.Run(prop='C02', tier='quick', seed=int(rep.get('seed', 0) or 0))
